@@ -1,12 +1,47 @@
 """C07 runtime correspondence check (see DESIGN.md)."""
-from . import rtprop
+import os, subprocess
+from . import rtprop, flexrun
 
-THEOREMS = ['FlexVerif.validate_sound']
+THEOREMS = ['FlexVerif.validate_sound', 'FlexVerif.specCands_selects']
+
+SPEC = ('%%option noyywrap\n%%%%\n'
+        'a+\t{ printf("1:%%s\\n", yytext); %s; }\n'
+        'a\t{ printf("2:%%s\\n", yytext); %s; }\n'
+        '.|\\n\t;\n%%%%\nint main(void) { yylex(); return 0; }\n')
+
+
+def detection_probe(ctx, results):
+    """use of REJECT / yyreject() in an action is detected without %option reject: the scanner is
+    built with the REJECT machinery, and the combination with -Cf/-CF is refused at generation time"""
+    flex, src = flexrun.build_flex()
+    work = flexrun.scratch_root()
+    for name, call in (('REJECT', 'REJECT'), ('yyreject()', 'yyreject()'), ('yyreject ( )', 'yyreject ( )')):
+        lf = os.path.join(work, 'c07_det.l'); cf = os.path.join(work, 'c07_det.c'); exe = os.path.join(work, 'c07_det.exe')
+        open(lf, 'w').write(SPEC % (call, ''))
+        rc, so, se = flexrun.run_flex(flex, lf, cf, [], timeout=20)
+        if rc != 0:
+            ctx.violation('flex refuses a rule set whose action uses %s: %s' % (name, se[-200:]), {'spec': SPEC % (call, '')})
+            continue
+        p = subprocess.run(['gcc', '-w', cf, '-o', exe], stdout=subprocess.PIPE, stderr=subprocess.STDOUT, text=True)
+        if p.returncode != 0:
+            ctx.violation('use of %s in an action is not detected: flex emits a scanner that does not compile (%s)' % (
+                name, [l for l in p.stdout.split('\n') if 'error' in l][:1]), {'spec': SPEC % (call, ''), 'cc': p.stdout[-600:]})
+            continue
+        out = subprocess.run([exe], input=b'aa', stdout=subprocess.PIPE, timeout=20).stdout.decode().split('\n')
+        want = ['1:aa', '1:a', '2:a']     # rule 1 rejects both its matches, then rule 2 takes "a"
+        if out[:3] != want:
+            ctx.violation('%s: alternatives visited %s, expected %s' % (name, out[:4], want), {'spec': SPEC % (call, '')})
+        for topt in ('-Cf', '-CF'):
+            rc, so, se = flexrun.run_flex(flex, lf, cf, [topt], timeout=20)
+            if rc == 0 or not se.strip():
+                ctx.violation('%s with %s is not refused at generation time (rc=%d, stderr %r)' % (name, topt, rc, se.strip()[-100:]),
+                              {'spec': SPEC % (call, ''), 'opts': [topt]})
 
 
 def run(ctx):
     q1, q2, q3 = {'quick': (64, 48, 32), 'thorough': (600, 400, 200)}[ctx.tier]
     plan = [('reject', q1, 8)]
     return rtprop.run(ctx, THEOREMS, plan, 'exploration',
-                      "REJECT: actions reject (optionally after yybegin) and the sequence of (rule, text) alternatives visited must be the specification's (length descending, rule ascending) order" + '. Kernel-checked theorems about the abstract scanner (listed under obligations) + differential '
-                      'correspondence of the real generated scanner (ASan/UBSan build) with that model on generated cases.')
+                      "REJECT: actions reject (optionally after yybegin) and the sequence of (rule, text) alternatives visited must be the specification's (length descending, rule ascending) order; probe: REJECT / yyreject() are detected without %option reject and refused with -Cf/-CF" + '. Kernel-checked theorems about the abstract scanner (listed under obligations) + differential '
+                      'correspondence of the real generated scanner (ASan/UBSan build) with that model on generated cases.',
+                      post=detection_probe)
